@@ -150,6 +150,9 @@ pub const FAMILIES: &[Family] = &[
         }
         s + "}\n#d asm { p0 }\n"
     } },
+    // appended after a round-5 agent's note: a reservation in a bank whose address unit is huge (count x unit overflows)
+    Family { name: "bank-bits-then-res", nesting: false, gen: |_, k| format!("#bankdef a\n{{\n    bits = {}\n    outp = 0\n}}\n#res 4\nx:\n", k) },
+    Family { name: "bank-bits-then-align", nesting: false, gen: |_, k| format!("#bankdef a\n{{\n    bits = {}\n    outp = 0\n}}\n#align 3\nx:\n#addr 5\ny:\n", k) },
 ];
 
 pub fn magnitudes() -> Vec<String> {
